@@ -1,1 +1,255 @@
-//! reference model `screen` (filled in by the property that needs it)
+//! Reference VT screen: a grid of cells (blank / character / wide tail, each with a rendition)
+//! plus a multiset of image placements. Semantics written from the xterm / ECMA-48 / kitty
+//! documentation (not from the renderer): SGR replaces the rendition, CUP must address a cell
+//! of the grid, a printed character takes the current rendition and advances the cursor by its
+//! display width, overwriting one half of a wide character blanks the other half (that cell
+//! keeps its rendition), printing in the pending-wrap column is undefined (poison), ECH blanks
+//! `n` cells from the cursor with the current background only (BCE) and does not move the
+//! cursor, image placement happens at the cursor, image deletion addresses one placement or
+//! all placements of that image content.
+use surf_n_term::{Face, FaceAttrs, Image, Position, Surface, TerminalCommand};
+
+#[derive(Debug, Clone, PartialEq, Eq, Hash, PartialOrd, Ord)]
+pub enum Content {
+    Blank,
+    Char(char),
+    /// right half of the wide character one column to the left
+    Tail,
+    /// result of an undefined operation; never equal to anything (see `visible`)
+    Poison,
+}
+
+#[derive(Debug, Clone, PartialEq, Eq, Hash, PartialOrd, Ord)]
+pub struct SCell {
+    pub content: Content,
+    pub face: Face,
+}
+
+impl SCell {
+    pub fn blank() -> Self {
+        SCell { content: Content::Blank, face: Face::default() }
+    }
+}
+
+/// Identity of image *content* (what the terminal shows), independent of allocation.
+#[derive(Debug, Clone, Copy, PartialEq, Eq, Hash, PartialOrd, Ord)]
+pub struct ImgId {
+    pub hash: u64,
+    pub height: usize,
+    pub width: usize,
+}
+
+pub fn img_id(img: &Image) -> ImgId {
+    ImgId { hash: img.hash(), height: img.height(), width: img.width() }
+}
+
+#[derive(Debug, Clone, PartialEq, Eq, Hash)]
+pub struct Screen {
+    pub height: usize,
+    pub width: usize,
+    pub cells: Vec<SCell>,
+    pub cursor: Option<Position>,
+    pub face: Face,
+    /// sorted multiset of (content, position)
+    pub placements: Vec<(ImgId, Position)>,
+    /// problems noticed while executing commands
+    pub problems: Vec<String>,
+}
+
+pub fn char_width(c: char) -> usize {
+    // same definition of display width as the library uses (unicode-width); the harness only
+    // uses characters whose width is unambiguous
+    match c {
+        '\u{4e16}' | '\u{754c}' => 2,
+        _ => 1,
+    }
+}
+
+impl Screen {
+    pub fn new(height: usize, width: usize) -> Self {
+        Screen {
+            height,
+            width,
+            cells: vec![SCell::blank(); height * width],
+            cursor: None,
+            face: Face::default(),
+            placements: vec![],
+            problems: vec![],
+        }
+    }
+
+    fn idx(&self, row: usize, col: usize) -> usize {
+        row * self.width + col
+    }
+
+    /// blank the partner half when one half of a wide character is about to be overwritten
+    fn break_wide(&mut self, row: usize, col: usize) {
+        let i = self.idx(row, col);
+        match self.cells[i].content {
+            Content::Tail => {
+                if col > 0 {
+                    let j = self.idx(row, col - 1);
+                    self.cells[j].content = Content::Blank;
+                }
+            }
+            Content::Char(c) if char_width(c) == 2 => {
+                if col + 1 < self.width {
+                    let j = self.idx(row, col + 1);
+                    if self.cells[j].content == Content::Tail {
+                        self.cells[j].content = Content::Blank;
+                    }
+                }
+            }
+            _ => {}
+        }
+    }
+
+    pub fn apply(&mut self, cmd: &TerminalCommand) {
+        match cmd {
+            TerminalCommand::Face(f) => self.face = *f,
+            TerminalCommand::CursorTo(p) => {
+                if p.row >= self.height || p.col >= self.width {
+                    self.problems.push(format!("CursorTo({},{}) outside the {}x{} grid", p.row, p.col, self.height, self.width));
+                    self.cursor = None;
+                } else {
+                    self.cursor = Some(*p);
+                }
+            }
+            TerminalCommand::Char(c) => {
+                let Some(cur) = self.cursor else {
+                    self.problems.push(format!("Char({:?}) printed with an unknown cursor position", c));
+                    return;
+                };
+                let w = char_width(*c);
+                if cur.col + w > self.width {
+                    self.problems.push(format!(
+                        "Char({:?}) of width {} printed at column {} of {} (pending wrap: undefined)",
+                        c, w, cur.col, self.width
+                    ));
+                    for col in cur.col.min(self.width.saturating_sub(1))..self.width {
+                        let i = self.idx(cur.row, col);
+                        self.cells[i].content = Content::Poison;
+                    }
+                    self.cursor = None;
+                    return;
+                }
+                for k in 0..w {
+                    self.break_wide(cur.row, cur.col + k);
+                }
+                let i = self.idx(cur.row, cur.col);
+                self.cells[i] = SCell {
+                    content: if *c == ' ' { Content::Blank } else { Content::Char(*c) },
+                    face: self.face,
+                };
+                if w == 2 {
+                    let j = self.idx(cur.row, cur.col + 1);
+                    self.cells[j] = SCell { content: Content::Tail, face: self.face };
+                }
+                self.cursor = Some(Position::new(cur.row, cur.col + w));
+            }
+            TerminalCommand::EraseChars(n) => {
+                let Some(cur) = self.cursor else {
+                    self.problems.push("EraseChars with an unknown cursor position".to_string());
+                    return;
+                };
+                if cur.col >= self.width {
+                    self.problems.push(format!("EraseChars at column {} of {} (pending wrap)", cur.col, self.width));
+                    return;
+                }
+                // ECH: a parameter of 0 means 1
+                let n = (*n).max(1);
+                let end = (cur.col + n).min(self.width);
+                for col in cur.col..end {
+                    self.break_wide(cur.row, col);
+                }
+                for col in cur.col..end {
+                    let i = self.idx(cur.row, col);
+                    self.cells[i] = SCell {
+                        content: Content::Blank,
+                        face: Face::new(None, self.face.bg, FaceAttrs::EMPTY),
+                    };
+                }
+            }
+            TerminalCommand::Image(img, pos) => {
+                match self.cursor {
+                    Some(cur) if cur == *pos => {}
+                    other => self.problems.push(format!(
+                        "Image placed for position ({},{}) while the cursor is at {:?}",
+                        pos.row, pos.col, other
+                    )),
+                }
+                self.placements.push((img_id(img), *pos));
+                self.placements.sort();
+            }
+            TerminalCommand::ImageErase(img, pos) => {
+                let id = img_id(img);
+                match pos {
+                    Some(p) => {
+                        if let Some(i) = self.placements.iter().position(|(c, q)| *c == id && q == p) {
+                            self.placements.remove(i);
+                        }
+                    }
+                    None => self.placements.retain(|(c, _)| *c != id),
+                }
+            }
+            other => self.problems.push(format!("unexpected command from the renderer: {:?}", other)),
+        }
+    }
+
+    /// What an observer sees: per cell (content, visible rendition), wide tails take the head's
+    /// rendition; on a blank cell foreground / bold / italic / blink are invisible unless reverse
+    /// video turns the foreground into the cell's fill.
+    pub fn visible(&self) -> Vec<SCell> {
+        let mut out = Vec::with_capacity(self.cells.len());
+        for row in 0..self.height {
+            for col in 0..self.width {
+                let c = &self.cells[self.idx(row, col)];
+                let mut face = c.face;
+                let content = c.content.clone();
+                match content {
+                    Content::Tail => {
+                        if col > 0 {
+                            face = self.cells[self.idx(row, col - 1)].face;
+                        }
+                    }
+                    Content::Blank => {
+                        let attrs = face.attrs;
+                        let keep = FaceAttrs::REVERSE | FaceAttrs::STRIKE;
+                        let mut vis = FaceAttrs::EMPTY;
+                        for flag in [FaceAttrs::REVERSE, FaceAttrs::STRIKE] {
+                            if attrs.contains(flag) {
+                                vis = vis | flag;
+                            }
+                        }
+                        let _ = keep;
+                        vis = vis | FaceAttrs::from(attrs.underline());
+                        let fg = if attrs.contains(FaceAttrs::REVERSE) { face.fg } else { None };
+                        face = Face::new(fg, face.bg, vis);
+                    }
+                    _ => {}
+                }
+                out.push(SCell { content, face });
+            }
+        }
+        out
+    }
+
+    pub fn has_poison(&self) -> bool {
+        self.cells.iter().any(|c| c.content == Content::Poison)
+    }
+
+    /// first difference between what two screens show
+    pub fn diff(&self, other: &Screen) -> Option<String> {
+        if self.placements != other.placements {
+            return Some(format!("image placements {:?} vs {:?}", self.placements, other.placements));
+        }
+        let a = self.visible();
+        let b = other.visible();
+        for (i, (x, y)) in a.iter().zip(b.iter()).enumerate() {
+            if x != y || x.content == Content::Poison {
+                return Some(format!("cell ({},{}) shows {:?} vs {:?}", i / self.width, i % self.width, x, y));
+            }
+        }
+        None
+    }
+}
